@@ -56,6 +56,10 @@ CHECKS = {
    technique="TLA+ spec Threshold (Shamir sharing and Lagrange recombination over Z_q): TLC exhausts the design on scalars; traces of multiparty.Thresholdizer/Combiner recomputed coefficient by coefficient by TLC",
    text="TLC checks Reconstruct and ListingIndependent for every N<=3, t<=N, injective point assignment, secrets/coefficients from pools and every active listing; the real Thresholdizer/Combiner run on toy fields (N=16, q in {97,193,12289}) for all 1<=t<=N<=4, all active subsets and up to 6 listing orders, every share, aggregated share and additive share being recomputed by TLC, plus real-size runs (points up to 2^64-1) checked for the reconstruction identity, listing independence and refusal of t-1 parties.",
    note="Trusted: TLC, the Threshold specification, uint64 reduction of the public points modulo q in the harness. Points are chosen distinct modulo every modulus."),
+ "C17": dict(spec="Sampler / SamplerMC / SamplerContract / SamplerGen / SamplerTrace", design="DESIGN.md §5 C17",
+   technique="TLA+ spec Sampler (keyed token stream, one buffer and pointer per sampler family shared by level views, rejection) model-checked by TLC; TLC-generated call sequences replayed on replicas of the real samplers; recorded digests, supports and counts validated by TLC against SamplerContract",
+   text="TLC exhausts the buffer/pointer design (every interleaving of calls on level views, every rejection pattern of the early tokens, Reset; the mutant where a view copies buffer and pointer must violate NoReuse) and enumerates every call sequence of length 1-2 (3 thorough) over {Read, ReadNew, ReadAndAdd} x {base, AtLevel views kept or fresh, view of a view} plus simulated longer ones; each sequence runs on ~50 configurations (uniform, ringqp uniform, Gaussian sigma 0.5..1.5*2^70 incl. the big-number path and tight bounds, ternary p in {1/2,2/3,1/10,9/10}, every Hamming weight 1..18 on N=16 and up to >N, toy and 45-60-bit moduli, Montgomery or not) by replicas with the same key, the other Montgomery setting, after Reset, WithPRNG and another key; TLC validates per call support, cross-modulus consistency (CRT), exact weight, same-key equality, other-key inequality, freshness, and per configuration 2^15-2^16-sample count statistics (Hoeffding 2^-60); KeyedPRNG chunking/Reset/Key(), compressed key expansion and CRP sampling are validated as functions of the key.",
+   note="Trusted: TLC, the SamplerContract inequalities, the probabilities computed from the mathematical definition of each distribution (python math.erf), math/big CRT/Montgomery inversion in the harness, sha256 digests. Statistical tests have low power against deviations below ~5% of a probability; unrelatedness of streams is reduced to inequality."),
  "C09": dict(spec="IntEval (frame) ...", design="DESIGN.md §5 C09",
    technique="TLA+ specs IntEval and ApproxEval with frame condition: TLC-generated programs with all aliasing patterns replayed on poisoned bgv/ckks evaluators, TLC trace validation",
    text="Same generated programs as C05 and C06 (bgv and ckks evaluators), with the frame condition switched on in the trace specification: after every call every register other than the designated output, and every non-ciphertext operand (*big.Int, slices, plaintexts) must be bit-for-bit unchanged; outputs aliased with op0/op1 and outputs that previously held a larger degree or level must produce the model's (alias-independent) value; all evaluator scratch buffers are filled with garbage before every call so residue dependence shows as a wrong value.",
